@@ -296,6 +296,25 @@ def ops(fa, schema, d, raw_for_reader=None):
         fa.schemaless_writer(fo, schema, d)
         return (fa.schemaless_reader(io.BytesIO(fo.getvalue()), schema, copy.deepcopy(reader)), fa.schemaless_reader(io.BytesIO(fo.getvalue()), schema, rq))
 
+    def strict_then_container():
+        # the SAME schema object first used for strict writes, then for a container file and a JSON document
+        a = io.BytesIO()
+        try:
+            fa.schemaless_writer(a, schema, d, strict=True)
+            strict_part = a.getvalue()
+        except Exception as e:
+            strict_part = type(e).__name__
+        try:
+            fa.schemaless_writer(io.BytesIO(), schema, d, strict_allow_default=True)
+        except Exception:
+            pass
+        fo = io.BytesIO()
+        fa.writer(fo, schema, [d], sync_marker=b"P" * 16)
+        so = io.StringIO()
+        fa.json_writer(so, schema, [d])
+        return (strict_part, list(fa.reader(io.BytesIO(fo.getvalue()))), so.getvalue())
+
+    out["strict-then-container"] = outcome(strict_then_container)
     out["first-field-skipped-under-evolved-reader"] = outcome(skip_first_with_evolved_reader)
     out["nested-records-evolved-reader-raw-and-piecewise"] = outcome(keep_all_with_evolved_reader)
     out["read-with-options"] = outcome(sl_options)
@@ -387,6 +406,15 @@ HANDMADE_PIECEWISE = [
      [{"type": "record", "name": "Child", "namespace": "n", "fields": [{"name": "g", "type": {"type": "fixed", "name": "G", "size": 2}}, {"name": "gs", "type": {"type": "array", "items": "n.G"}}]}],
      {"type": "record", "name": "Parent", "namespace": "n", "fields": [{"name": "a", "type": "n.G"}, {"name": "b", "type": "n.Child"}, {"name": "c", "type": ["null", "n.Child"], "default": None}]},
      [{"a": b"xy", "b": {"g": b"zz", "gs": [b"12"]}, "c": None}, {"a": b"\x00\xff", "b": {"g": b"ab", "gs": []}, "c": {"g": b"cd", "gs": [b"ef", b"gh"]}}]),
+    ("same-short-name-in-null-namespace-and-in-shop",
+     {"type": "record", "name": "Item", "namespace": "shop", "fields": [
+         {"name": "k", "type": {"type": "enum", "name": "Kind", "symbols": ["A", "B"]}}, {"name": "k2", "type": "Kind"}, {"name": "k3", "type": ["null", "shop.Kind"]},
+         {"name": "ks", "type": {"type": "array", "items": "Kind"}}]},
+     # the table also holds an unrelated null-namespace type with the same short name, parsed first
+     [{"type": "enum", "name": "Kind", "symbols": ["GLOBAL"]}, {"type": "enum", "name": "Kind", "namespace": "shop", "symbols": ["A", "B"]}],
+     {"type": "record", "name": "Item", "namespace": "shop", "fields": [{"name": "k", "type": "shop.Kind"}, {"name": "k2", "type": "Kind"}, {"name": "k3", "type": ["null", "shop.Kind"]},
+                                                                       {"name": "ks", "type": {"type": "array", "items": "Kind"}}]},
+     [{"k": "B", "k2": "A", "k3": "B", "ks": ["A", "B"]}, {"k": "A", "k2": "B", "k3": None, "ks": []}]),
     ("two-pieces-sharing-an-inner-enum",
      {"type": "record", "name": "Top", "namespace": "m", "fields": [
          {"name": "k", "type": {"type": "enum", "name": "K", "symbols": ["A", "B"]}},
